@@ -9,6 +9,7 @@ package exec
 import (
 	"context"
 
+	"github.com/grailbio/base/retry"
 	"github.com/grailbio/bigslice/frame"
 	"github.com/grailbio/bigslice/slicefunc"
 	"github.com/grailbio/bigslice/sliceio"
@@ -56,4 +57,13 @@ func (v VerifCombiner) Reader() (sliceio.Reader, error)                  { retur
 func (v VerifCombiner) Discard() error                                   { return v.c.Discard() }
 func (v VerifCombiner) WriteTo(ctx context.Context, enc *sliceio.Encoder) (int64, error) {
 	return v.c.WriteTo(ctx, enc)
+}
+
+// VerifSetRetryPolicy replaces the retry policy used for remote reads and
+// returns the previous one. The stock policy backs off for 5s..60s, which
+// makes every injected fault cost minutes.
+func VerifSetRetryPolicy(p retry.Policy) retry.Policy {
+	old := retryPolicy
+	retryPolicy = p
+	return old
 }
